@@ -225,14 +225,25 @@ def _check_adv(out, model, bus, rom_label, a, m, n, want_sub):
             out.bad(f"adv:{rom_label}:ram:offset", want_sub, f"RAM address got offsets {phys}")
 
 
-def _check_lead(out, model, rom, map_src, lead, a, m, want_sub):
+def _place_maps(map_src: str, body: str, where: int) -> str:
+    """The `.map` lines of a program describe its one bus wherever they are written: on top, after the statements, or around them."""
+    if where % 3 == 0 or not map_src:
+        return (map_src or "") + body
+    lines = map_src.splitlines(keepends=True)
+    if where % 3 == 1:
+        return body + map_src
+    return "".join(lines[:1]) + body + "".join(lines[1:])
+
+
+def _check_lead(out, model, rom, map_src, lead, a, m, want_sub, where=0):
     """program `[.map ...] <lead>A ; m filler bytes ; label`: the label is A advanced by m"""
-    src = (map_src or "") + f"{lead}0x{a:06x}\n"
+    src = f"{lead}0x{a:06x}\n"
     files = None
     if m > 0:
         src += ".incbin 'pad.bin'\n"
         files = {"pad.bin": {"rep": [0x5A, m]}}
     src += "probe_lbl:\n.db 0x42\n"
+    src = _place_maps(map_src, src, where)
     res = driver.assemble_mem(src, rom=rom or "low", files=files)
     tag = f"{'umap' if map_src else rom}:lead{'-org' if lead == '*=' else '-reloc'}"
     if not res.accepted:
@@ -408,9 +419,10 @@ def _run_umap(case) -> Outcome:
             return out.bad("umap:api:install-raised", case, f"Bus.map raised {type(e).__name__}: {e}")
         program = None
     else:
-        src = _map_directives(specs)
+        maps, src = _map_directives(specs), ""
         # probe inside an assembled program too: *=A ; n bytes ; label  ->  block offset and label value
         a0, m0, _ = case["probes"][0]
+        where = (a0 + m0) % 3  # .map lines on top / after the statements / around them
         files = None
         r0 = model.range_of(a0)
         in_prog = (not r0.ram) and m0 + 1 < model.room(a0)  # the marker byte must not end the mapped range
@@ -420,6 +432,8 @@ def _run_umap(case) -> Outcome:
                 src += ".incbin 'pad.bin'\n"
                 files = {"pad.bin": {"rep": [0x5A, m0]}}
             src += "probe_lbl:\n.db 0x42\n"
+            out.labels.append(f"umap:maps-{('top', 'after', 'around')[where]}")
+        src = _place_maps(maps, src, where)
         res = driver.assemble_mem(src, files=files, keep_program=True)
         program = res.get("program")
         if not res.accepted:
@@ -437,7 +451,7 @@ def _run_umap(case) -> Outcome:
                 out.bad("umap:directive:block-offset", case,
                         f"bytes not at the mapped offset: expected first offset {model.physical(a0):#x}, marker at {exp_off:#x}; "
                         f"got offsets {min(flat):#x}..{max(flat):#x} ({len(flat)} bytes)\n{src}")
-            _check_lead(out, model, None, _map_directives(specs), "@=", a0, m0, case)
+            _check_lead(out, model, None, maps, "@=", a0, m0, case, where + 1)
             try:
                 gp = program.get_physical_address(a0)
             except Exception as e:
